@@ -25,6 +25,7 @@ PROOF_FAIL = [
     (r"unable to prove pre-?condition of closure|Call to non-static function fails to satisfy `callee.requires", "closure_precondition"),
     (r"precondition not satisfied", "precondition"),
     (r"assertion failed", "assertion"),
+    (r"^requires not satisfied", "assertion"),
     (r"invariant not satisfied", "invariant"),
     (r"possible arithmetic underflow/overflow", "overflow"),
     (r"possible division by zero", "div0"),
